@@ -80,6 +80,12 @@ func (cf *c16cfg) effective(tagRule, typeName, field string, outermost bool) str
 
 func (cf *c16cfg) resolve(name string) (kind string, tag string) { // fn | mark | builtin | unknown
 	if t, ok := cf.local[name]; ok {
+		if t == "" { // a per-call entry holding a nil function: the rule does nothing (the extension rules keep their built-in meaning)
+			if c16Builtin[name] {
+				return "builtin", ""
+			}
+			return "silent", ""
+		}
 		return "mark", t
 	}
 	if t, ok := cf.global[name]; ok {
@@ -126,6 +132,8 @@ func (cf *c16cfg) expectStruct(v reflect.Value, structName string, outermost boo
 			kind, tag := cf.resolve(key)
 			path := joinPath(sn, f.Name)
 			switch kind {
+			case "silent":
+				continue
 			case "unknown":
 				out = append(out, expE{"F", fieldErrPath(sn, f.Name), `F:valid "` + key + `" is not exist, You can call SetValidFn`})
 			case "mark":
@@ -322,6 +330,11 @@ func runC16(c *Ctx) error {
 		if r.Chance(12) {
 			cf.local["exist"] = "L5"
 			feat = append(feat, "local-beats-exist")
+		}
+		if r.Chance(25) { // a per-call entry whose function is nil, under a built-in, a global, a per-call-only or an unknown name
+			name := r.Pick([]string{"to", "ge", "phone", "eq", "lfn", "required", "exist", "nosuch", "in"})
+			cf.local[name] = ""
+			feat = append(feat, "local-nil:"+name)
 		}
 		call.Local = cf.local
 		// the input: the outermost struct, or a pointer to it, or (no outermost struct) a slice of it
